@@ -38,7 +38,8 @@ def meta(tier, seed):
                           "(<= 4 chunks; identity and reverse above)" % (4 if tier == "quick" else 6),
                    "ob3": "preemption bound %d at LOAD_ATTR/STORE_ATTR/BINARY_SUBSCR/STORE_SUBSCR/DELETE_SUBSCR/CALL/"
                           "BINARY_OP granularity; 2-3 tasks" % (1 if tier == "quick" else 2),
-                   "ob4": "real joblib backends None/loky/threading/multiprocessing"},
+                   "ob4": "real joblib backends None/loky/threading/multiprocessing",
+                   "ob5": "2600-row histories (fit 900 + partial_fit 1700) under n_jobs 1..4"},
         "assumptions": ["calls into NumPy / scikit-learn / copy are atomic steps (frames outside mabwiser are not traced)",
                         "prediction tasks: only frames whose receiver belongs to the shared bandit graph are preemptible",
                         "the memory model below the GIL is not modelled"],
@@ -100,6 +101,11 @@ def shards(tier, seed):
     for ln in ("eg0", "ts"):
         out.append({"ob": "3r", "ln": ln, "nn": "tree", "seed": 55 + seed})
     out.append({"ob": "3r", "ln": "eg0", "nn": "lsh", "seed": 55 + seed})
+    # histories beyond internal size thresholds (mini-batch sizes, chunking): the trained model must not depend on n_jobs
+    for ln, nn in (("eg0", ["Clusters", {"n_clusters": 4, "is_minibatch": True}]), ("eg0", "mclu"),
+                   ("ucb", ["Clusters", {"n_clusters": 3, "is_minibatch": False}]), ("eg0", "lsh"), ("ucb", "knn"),
+                   ("lucb", "none"), ("ucb", "none")):
+        out.append({"ob": 5, "ln": ln, "nn": nn, "seed": 59 + seed})
     for backend in ([None, "threading"] if tier == "quick" else [None, "loky", "threading", "multiprocessing"]):
         out.append({"ob": 4, "backend": backend, "in_parent": True, "seed": 57 + seed, "tier": tier})
     out.sort(key=lambda s: 0 if s["ob"] == 3 and s["target"] == "predict" else 1 if s["ob"] == 2 else 2)
@@ -550,6 +556,43 @@ def ob4(shard, acc):
     acc.sample({"ob": 4, "backend": backend, "targets": targets})
 
 
+# ================================================================== ob5: long histories
+def long_data(n):
+    # unstructured contexts (no well separated groups): the clustering is sensitive to how k-means is run
+    x = [[((i * 7919) % 1000) / 100.0, ((i * 104729) % 997) / 100.0] for i in range(n)]
+    d = [1 + (i * 5 + i // 7) % 3 for i in range(n)]
+    r = [float((i * 11) % 4) for i in range(n)]
+    return d, r, x
+
+
+def ob5_run(ln, nn, n_jobs, seed, n=2600):
+    cfg = A.config(ln, nn, arms=ARMS3, seed=seed, n_jobs=n_jobs)
+    cf = ops.is_context_free(cfg)
+    d, r, x = long_data(n)
+    with sched.model():
+        mab = ops.build(cfg)
+        ops.apply(mab, ["fit", d[:900], r[:900], None if cf else x[:900]])
+        ops.apply(mab, ["partial_fit", d[900:], r[900:], None if cf else x[900:]])
+        q = None if cf else x[::150]
+        return cfg, [ops.call(mab, "predict", q), ops.call(mab, "predict_expectations", q)]
+
+
+def ob5(shard, acc):
+    ln, nn = shard["ln"], shard["nn"]
+    _c, ref = ob5_run(ln, nn, 1, shard["seed"])
+    acc.outcome(ref)
+    for n_jobs in (2, 3, 4):
+        cfg, got = ob5_run(ln, nn, n_jobs, shard["seed"])
+        acc.traces += 1
+        acc.case(("ob5", ln, str(nn), n_jobs))
+        acc.state(("ob5", ln, str(nn), n_jobs))
+        if not ops.same(ref, got):
+            acc.violation("ob5 %s/%s n_jobs=%d" % (ln, nn if isinstance(nn, str) else nn[0], n_jobs),
+                          {"ob": 5, "cfg": cfg, "ln": ln, "nn": nn},
+                          "2600-row history: n_jobs=%d gives %r, n_jobs=1 gives %r" % (n_jobs, got, ref))
+    acc.sample({"ob": 5, "combination": [ln, str(nn)], "rows": 2600, "n_jobs": [1, 2, 3, 4]})
+
+
 # ================================================================== driver
 def run_shard(shard):
     acc = report.Acc(ID, replay, shard)
@@ -562,6 +605,8 @@ def run_shard(shard):
         ob3(shard, acc)
     elif ob == "3r":
         ob3r(shard, acc)
+    elif ob == 5:
+        ob5(shard, acc)
     else:
         ob4(shard, acc)
     return acc.result()
@@ -591,6 +636,10 @@ def replay(w):
         return [] if got == want else ["schedule %r: %r != sequential %r" % (w["prefix"], got, want)]
     if ob == "3r":
         return ob3r_run(w["cfg"], w["ops"])[0]
+    if ob == 5:
+        _c, ref = ob5_run(w["ln"], w["nn"], 1, w["cfg"]["seed"])
+        _c, got = ob5_run(w["ln"], w["nn"], w["cfg"]["n_jobs"], w["cfg"]["seed"])
+        return [] if ops.same(ref, got) else ["n_jobs=%d: %r != n_jobs=1: %r" % (w["cfg"]["n_jobs"], got, ref)]
     cfg = w["cfg"]
     _c, real = ob4_case(w["ln"], w["nn"], cfg["n_jobs"], cfg["backend"], cfg["seed"], True)
     _c, model = ob4_case(w["ln"], w["nn"], cfg["n_jobs"], cfg["backend"], cfg["seed"], False)
